@@ -2,7 +2,7 @@
 # executor lines of kind roots.solve, parsing of its answer (roots + recorded libm call log), the
 # oracle table as a Gallina term, the model terms (tie / trace), and the LAZY term that lets the
 # frozen engine pipeline carry a model term which depends on the implementation's own run.
-import os, math, json
+import os, math, json, threading
 from common import *
 
 CANON_NAN = 0x7FF8000000000000
@@ -74,7 +74,8 @@ def coeffs_term(elt, coeffs):
 def model_term(elt, coeffs, refine, log, trace=False):
     fn = "roots_f64" if elt == 'f64' else "roots_cplx"
     fl = "fl_roots_trace" if trace else "fl_roots"
-    return "%s (%s (%s) %s %s)" % (fl, fn, table_term(log), coeffs_term(elt, coeffs), "true" if refine else "false")
+    t = "%s (%s (%s) %s %s)" % (fl, fn, table_term(log), coeffs_term(elt, coeffs), "true" if refine else "false")
+    return t
 
 def exe_path():
     return os.path.join(TARGET, "debug", "exec")
@@ -93,6 +94,7 @@ class LazyTerm:
     every registered case with the call log switched on and embeds each case's oracle table."""
     registry = []
     cache = None
+    lock = threading.Lock()      # run_coq prints the shards from several threads
     def __init__(self, elt, coeffs, refine):
         self.key = (elt, tuple(coeffs), bool(refine))
         LazyTerm.registry.append(self)
@@ -108,9 +110,10 @@ class LazyTerm:
         cls.cache = dict(zip(keys, answers))
     @classmethod
     def answer(cls, key):
-        if cls.cache is None or key not in cls.cache:
-            cls.fill()
-        return cls.cache[key]
+        with cls.lock:
+            if cls.cache is None or key not in cls.cache:
+                cls.fill()
+            return cls.cache[key]
     def log(self):
         a = LazyTerm.answer(self.key)
         return a["log"] or []
@@ -124,7 +127,7 @@ class LazyTerm:
 IMPORTS = "From OV Require Import Model.Roots."
 
 def parse_trace(zs, n_expected=None):
-    """decode the fl_roots_trace stream -> (root bits [(re,im)], [(exit, iters, finite_in, finite_out)]) or ('P', kind)"""
+    """decode the fl_roots_trace stream -> (root bits [(re,im)], [(exit, iters, finite_in, finite_out, test_ok)]) or ('P', kind)"""
     items = decode_coq(zs)
     if items and items[0][0] == 'P':
         return None, items[0][1]
@@ -135,5 +138,5 @@ def parse_trace(zs, n_expected=None):
     cnt = items[pos][1]; pos += 1
     tr = []
     for k in range(cnt):
-        tr.append((items[pos][1], items[pos + 1][1], items[pos + 2][1], items[pos + 3][1])); pos += 4
+        tr.append((items[pos][1], items[pos + 1][1], items[pos + 2][1], items[pos + 3][1], items[pos + 4][1])); pos += 5
     return bits, tr
